@@ -48,6 +48,83 @@ def init_attrs(info, analysis=None) -> Dict[str, str]:
     return out
 
 
+def decode_paths(analysis: Analysis, keys):
+    """Abstract paths of the JSON object hook applied to a dict with exactly `keys` (symbolic values)."""
+    from ..values import DictV, Sym
+
+    ctx = analysis.context(analysis.versions[-1], "serial", "sync")
+    it = analysis.new_interp(ctx)
+    st = it.new_state()
+    dec = Sym(("root", "DEC"), ("cls", "persistence:MySensorsJSONDecoder"))
+    d = DictV({k: Sym(("root", "v_" + k), None) for k in keys}, closed=True, label="in")
+    return d, analysis.run_root(it, "persistence:MySensorsJSONDecoder.dict_to_object", [d], dec, st)
+
+
+def decoder_rules(analysis: Analysis, res: RuleResult, enc_s, enc_c, wd) -> None:
+    """R2/R3 by evaluation: the object hook is run on a dict with exactly the encoder's keys of each class, on
+    all-digit keys and on other dicts; what it returns is compared with what the encoder wrote."""
+    from ..engine import describe_path
+    from ..values import Const, DictV, Obj, V
+
+    def final_attr(s, obj, name):
+        return s.mem.get((obj.key(), "a", name))
+
+    # Sensor dict -> Sensor
+    d, outs = decode_paths(analysis, sorted(enc_s))
+    bad = []
+    for out in outs:
+        kind, s, v = out
+        if kind != "val":
+            bad.append((f"raises {v.cls.__name__}: {v.what}", out))
+            continue
+        if not (isinstance(v, Obj) and v.cls == "sensor:Sensor"):
+            bad.append((f"returns {v.key()!r}, not a Sensor", out))
+            continue
+        news = [e for e in s.events if e.kind == "new" and e.name == "sensor:Sensor"]
+        if not (news and news[0].args and news[0].args[0].key() == ("root", "v_sensor_id")):
+            bad.append(("the Sensor is not constructed with the encoded sensor_id", out))
+        for k in sorted(enc_s):
+            stores = [e for e in s.events if e.kind == "store" and isinstance(e.recv, V) and e.recv.key() == v.key() and e.name in (k, "_" + k) and not e.func.endswith(".__init__")]
+            direct = final_attr(s, v, k)
+            if not stores:
+                bad.append((f"key {k} of a Sensor dict is not restored", out))
+            elif direct is not None and k not in ("battery_level", "heartbeat", "protocol_version") and direct.key() != ("root", "v_" + k):
+                bad.append((f"attribute {k} ends up as {direct.key()!r}, not the encoded value", out))
+    res.add("C11-R2", "persistence:MySensorsJSONDecoder / a dict with the Sensor encoder's keys becomes a Sensor with every key restored", not bad and bool(outs), wd, f"{len(outs)} path(s): Sensor(v['sensor_id']) then every encoded key stored through its attribute / property" if not bad else bad[0][0], describe_path(bad[0][1], 18) if bad else None)
+    # ChildSensor dict -> ChildSensor (with and without the optional description)
+    for keys, label in ((sorted(enc_c), "the ChildSensor encoder's keys"), (sorted(enc_c - {"description"}), "the ChildSensor keys minus the optional description")):
+        d, outs = decode_paths(analysis, keys)
+        bad = []
+        for out in outs:
+            kind, s, v = out
+            if kind != "val":
+                bad.append((f"raises {v.cls.__name__}: {v.what}", out))
+                continue
+            if not (isinstance(v, Obj) and v.cls == "sensor:ChildSensor"):
+                bad.append((f"returns {v.key()!r}, not a ChildSensor", out))
+                continue
+            for k in keys:
+                got = final_attr(s, v, k)
+                if got is None or got.key() != ("root", "v_" + k):
+                    bad.append((f"attribute {k} ends up as {got.key() if got is not None else None!r}, not the encoded value", out))
+        res.add("C11-R2", f"persistence:MySensorsJSONDecoder / a dict with {label} becomes a ChildSensor with every key restored", not bad and bool(outs), wd, f"{len(outs)} path(s)" if not bad else bad[0][0], describe_path(bad[0][1], 18) if bad else None)
+    # all-digit keys -> the same entries under int keys
+    d, outs = decode_paths(analysis, ["0", "7", "255"])
+    bad = []
+    for out in outs:
+        kind, s, v = out
+        if kind != "val":
+            bad.append((f"raises {v.cls.__name__}: {v.what}", out))
+        elif not (isinstance(v, DictV) and v.closed and set(v.entries) == {0, 7, 255} and all(v.entries[i].key() == ("root", f"v_{i}") for i in (0, 7, 255))):
+            bad.append((f"returns {sorted(getattr(v, 'entries', {}), key=str) if isinstance(v, DictV) else v.key()!r}: not every entry under its integer key with its own value", out))
+    res.add("C11-R3", "persistence:MySensorsJSONDecoder / all-digit keys become int keys, every entry and value kept (ids 0, 7, 255)", not bad and bool(outs), wd, "{int(k): v} for every item" if not bad else bad[0][0], describe_path(bad[0][1], 18) if bad else None)
+    # anything else is returned untouched
+    for keys in (["foo"], ["1", "x"]):
+        d, outs = decode_paths(analysis, keys)
+        ok = bool(outs) and all(k == "val" and isinstance(v, V) and v.key() == d.key() for k, s, v in outs)
+        res.add("C11-R3", f"persistence:MySensorsJSONDecoder / a dict with keys {keys} is returned unchanged", ok, wd, "no recogniser applies" if ok else "a dict that is neither an encoded object nor an all-digit map is rewritten or raises")
+
+
 def run(analysis: Analysis, tier: str) -> RuleResult:
     res = RuleResult(PROP)
     res.explanation = [
@@ -55,7 +132,7 @@ def run(analysis: Analysis, tier: str) -> RuleResult:
         "Value-level exactness (Unicode, number/str fidelity) and equality of the two formats on actual states are not decided.",
     ]
     p = analysis.p
-    proj, conditional_keys = json_projection(p, with_conditional=True)
+    proj, conditional_keys = json_projection(p, with_conditional=True, analysis=analysis)
     sensor = p.classes["sensor:Sensor"]
     child = p.classes["sensor:ChildSensor"]
     s_init = init_attrs(sensor.methods["__init__"], analysis)
@@ -113,18 +190,33 @@ def run(analysis: Analysis, tier: str) -> RuleResult:
     getstate = sensor.methods.get("__getstate__")
     if getstate is None:
         raise AnalysisError("anchor vanished: Sensor.__getstate__")
+    # by paths: which keys of the instance dict copy are popped and under which name the value is stored back
     renamed: Set[str] = set()
-    for n in ast.walk(getstate.node):
-        if isinstance(n, ast.For) and isinstance(n.iter, (ast.Tuple, ast.List)):
-            renamed |= {e.value for e in n.iter.elts if isinstance(e, ast.Constant) and isinstance(e.value, str)}
-        elif isinstance(n, ast.For):
-            for nm in ast.walk(n.iter):
-                if isinstance(nm, ast.Name) and nm.id in getstate.module.assigns:
-                    src = getstate.module.assigns[nm.id]
-                    if isinstance(src, ast.Dict):
-                        renamed |= {k.value for k in src.keys if isinstance(k, ast.Constant) and isinstance(k.value, str)}
-                    elif isinstance(src, (ast.Tuple, ast.List)):
-                        renamed |= {e.value for e in src.elts if isinstance(e, ast.Constant) and isinstance(e.value, str)}
+    gs_problems = []
+    from ..values import Const as _Const, Sym as _Sym
+
+    ctx0 = analysis.context(analysis.versions[-1], "serial", "sync")
+    it0 = analysis.new_interp(ctx0)
+    outs0 = analysis.run_root(it0, getstate.qual, [], _Sym(("root", "S"), ("cls", sensor.qual)), it0.new_state())
+    full = None
+    for kind0, s0, v0 in outs0:
+        if kind0 != "val":
+            gs_problems.append(f"__getstate__ can raise {v0.cls.__name__}")
+            continue
+        pops = [e.args[0].value for e in s0.events if e.kind == "dictpop" and e.args and isinstance(e.args[0], _Const)]
+        for e in s0.events:
+            if e.kind in ("dictpop", "delitem") and e.args and not isinstance(e.args[0], _Const):
+                gs_problems.append("a computed key is removed from the pickled state")
+            if e.kind == "setitem" and len(e.args) == 2:
+                k, val = e.args
+                src = val.key()
+                if not (isinstance(k, _Const) and isinstance(src, tuple) and src[0] == "get" and isinstance(src[2], tuple) and src[2][:2] == ("c", "str") and src[2][2] == "_" + str(k.value)):
+                    gs_problems.append(f"state[{k.key()!r}] is stored from {src!r}: not the value popped from the private attribute of that name")
+        renamed |= set(pops)
+        full = set(pops) if full is None else (full & set(pops))
+    if full is not None and renamed != full:
+        gs_problems.append(f"attributes {sorted(renamed - full)} are renamed on some paths only")
+    res.add("C11-R1", "sensor:Sensor.__getstate__ / each renamed value is stored under the property name of the private attribute it was popped from", not gs_problems, common.where(analysis, getstate, getstate.node), "state[name] = state.pop('_' + name)" if not gs_problems else "; ".join(sorted(set(gs_problems))[:3]))
     setters = {"_" + name for name, pr in sensor.props.items() if "set" in pr}
     res.add("C11-R1", "sensor:Sensor.__getstate__ / renames exactly the private attributes behind a property with setter", renamed == setters, common.where(analysis, getstate, getstate.node), f"renamed {sorted(renamed)}; settable properties {sorted(setters)}")
     private = {a for a in s_init if a.startswith("_")}
@@ -137,66 +229,12 @@ def run(analysis: Analysis, tier: str) -> RuleResult:
     wc = common.where(analysis, child.methods["__init__"], child.methods["__init__"].node)
     res.add("C11-R2", "sensor:ChildSensor / constructor attributes = JSON keys", set(c_init) == enc_c == {"id", "type", "description", "values"}, wc, f"init {sorted(c_init)}; encoder {sorted(enc_c)}")
     dec = p.func("persistence:MySensorsJSONDecoder.dict_to_object")
-    branches = []
-    for st in dec.node.body:
-        if isinstance(st, ast.If):
-            branches.append(st)
-    kinds = []
-    child_keys: List[str] = []
-    sensor_key = None
-    for br in branches:
-        t = unparse(br.test)
-        if "sensor_id" in t and "in obj" in t:
-            kinds.append("sensor")
-            sensor_key = "sensor_id"
-        elif t.startswith("all(") and "isdigit" in t:
-            kinds.append("intkeys")
-        elif t.startswith("all(") and " in obj" in t:
-            kinds.append("child")
-            for n in ast.walk(br.test):
-                if isinstance(n, (ast.List, ast.Tuple)):
-                    child_keys = [e.value for e in n.elts if isinstance(e, ast.Constant)]
-                elif isinstance(n, ast.Name) and n.id in dec.module.assigns and isinstance(dec.module.assigns[n.id], (ast.List, ast.Tuple)):
-                    child_keys = [e.value for e in dec.module.assigns[n.id].elts if isinstance(e, ast.Constant)]
-        elif "isinstance" in t:
-            kinds.append("guard")
-        else:
-            kinds.append("other:" + t[:30])
     wd = common.where(analysis, dec, dec.node)
-    res.add("C11-R2", "persistence:MySensorsJSONDecoder / recogniser keys are encoder keys", sensor_key in enc_s and set(child_keys) <= enc_c and bool(child_keys), wd, f"sensor recogniser {sensor_key}, child recogniser {child_keys}")
-    excl = sensor_key not in enc_c and not set(child_keys) <= enc_s
-    res.add("C11-R2", "persistence:MySensorsJSONDecoder / the two recognisers are mutually exclusive", excl, wd, "a Sensor dict is never taken for a ChildSensor and vice versa")
-    # ---- R3
-    order = [k for k in kinds if k in ("sensor", "child", "intkeys")]
-    res.add("C11-R3", "persistence:MySensorsJSONDecoder / integer keys are restored, after the object recognisers", order == ["sensor", "child", "intkeys"], wd, f"branch order {kinds}")
-    intbranch = [br for br, k in zip(branches, kinds) if k == "intkeys"]
-    comps = [n for n in ast.walk(intbranch[0]) if isinstance(n, ast.DictComp) and unparse(n.key).startswith("int(")] if intbranch else []
-    ok_int = bool(comps)
-    res.add("C11-R3", "persistence:MySensorsJSONDecoder / all-digit keys become int keys", ok_int, wd, "{int(k): v for k, v in obj.items()}")
-    for n in comps:
-        gen = n.generators[0]
-        tgt = gen.target.elts if isinstance(gen.target, ast.Tuple) else []
-        whole = len(n.generators) == 1 and not gen.ifs and len(tgt) == 2 and isinstance(n.value, ast.Name) and isinstance(tgt[1], ast.Name) and n.value.id == tgt[1].id and unparse(n.key) == f"int({unparse(tgt[0])})" and unparse(gen.iter).endswith(".items()")
-        res.add("C11-R3", "persistence:MySensorsJSONDecoder / the integer-key restoration keeps every entry and every value", whole, common.where(analysis, dec, n), "no filter, value passed through" if whole else f"`{unparse(n)[:90]}` filters or rewrites entries: the same branch restores the node map, the child maps and the value maps, so entries are lost on JSON load only")
+    decoder_rules(analysis, res, enc_s, enc_c, wd)
     plain = {a for a in s_init if not a.startswith("_")}
     settable = plain | {name for name, pr in sensor.props.items() if "set" in pr}
     missing = enc_s - settable
     res.add("C11-R3", "sensor:Sensor / every encoded key is a settable attribute or property", not missing, w, f"not settable: {sorted(missing)}" if missing else "decoder restores with setattr(sensor, key, val)")
-    sbr = [br for br, k in zip(branches, kinds) if k == "sensor"]
-    ok_loop = bool(sbr) and any(isinstance(n, ast.Call) and unparse(n.func) == "setattr" for n in ast.walk(sbr[0])) and any(isinstance(n, ast.For) and "obj.items()" in unparse(n.iter) for n in ast.walk(sbr[0]))
-    res.add("C11-R3", "persistence:MySensorsJSONDecoder / every key of a Sensor dict is restored", ok_loop, wd, "for key, val in obj.items(): setattr(sensor, key, val)")
-    cbr = [br for br, k in zip(branches, kinds) if k == "child"]
-    used = set()
-    if cbr:
-        for n in ast.walk(cbr[0]):
-            if isinstance(n, ast.Subscript) and unparse(n.value) == "obj" and isinstance(n.slice, ast.Constant):
-                used.add(n.slice.value)
-            if isinstance(n, ast.Call) and unparse(n.func) == "obj.get" and n.args and isinstance(n.args[0], ast.Constant):
-                used.add(n.args[0].value)
-    res.add("C11-R3", "persistence:MySensorsJSONDecoder / every key of a ChildSensor dict is restored", used == enc_c, wd, f"restored {sorted(used)}; encoded {sorted(enc_c)}")
-    # child values assigned to .values
-    ok_vals = bool(cbr) and any(isinstance(n, ast.Assign) and unparse(n.targets[0]).endswith(".values") and "obj['values']" in unparse(n.value).replace('"', "'") for n in ast.walk(cbr[0]))
-    res.add("C11-R3", "persistence:MySensorsJSONDecoder / child values are restored as the values map", ok_vals, wd, "child.values = obj['values']")
     # ---- R4
     res.add("C11-R4", "persistence:MySensorsJSONEncoder / transient state is not encoded", not (enc_s & TRANSIENT) and not (enc_c & TRANSIENT), "mysensors/persistence.py", f"encoded Sensor keys {sorted(enc_s)}")
     # encoder reads the public names (through the properties), so fallbacks applied by setters are what is saved
